@@ -25,7 +25,8 @@ ReencodeOk(c) ==
         /\ \A i \in 1..Len(c.vdiff) : <<c.vdiff[i][1], c.vdiff[i][2]>> = Replacement
 \* ---------------------------------------------------------------- C09: reference decoders (value in units)
 \* fixed point: the payload is the (un)signed number of resolution steps
-FixValue(c) == c.raw * c.U
+\*  (woff: DPT 17.001 / 5.010-like offsets - scene numbers 1..64 travel as 0..63)
+FixValue(c) == (c.raw + c.woff) * c.U
 \* KNX two-octet float (DPT 9): sign (1) exponent (4) mantissa (11), value = 0.01 * M * 2^E with M the twelve-bit two's complement of sign.mantissa
 F16M(raw) == (raw % 2048) - 2048 * (raw \div 32768)
 F16E(raw) == (raw \div 2048) % 16
@@ -37,32 +38,37 @@ F16MinExp(v, U) == IF \E e \in 0..15 : F16Fits(v, U, e) THEN CHOOSE e \in 0..15 
 Within(dec, v, eps, step) == LET d == dec - v IN Abs(d) < step \/ (d = step /\ eps = 1) \/ (d = -step /\ eps = -1)
 InRange(c) == /\ (c.lo < c.v \/ (c.lo = c.v /\ c.eps >= 0))
               /\ (c.v < c.hi \/ (c.v = c.hi /\ c.eps <= 0))
-NumFixOk(c) ==
-  IF InRange(c) THEN /\ c.out = "ok" /\ c.plen = c.dlen /\ c.dec = "ok" /\ c.decok = 1
-                     /\ Within(FixValue(c), c.v, c.eps, c.U)
+\* less than one step beyond an end of the declared range: the value may be refused, or rounded to the end of the range
+\* (reading of "outside the declared range ... rejected": what is quantified is "the boundaries and one step beyond")
+NearRange(c, step) == /\ (c.lo - step < c.v \/ (c.lo - step = c.v /\ c.eps = 1))
+                      /\ (c.v < c.hi + step \/ (c.v = c.hi + step /\ c.eps = -1))
+Good(c) == c.out = "ok" /\ c.plen = c.dlen /\ c.dec = "ok" /\ c.decok = 1          \* accepted, declared length, the type decodes its own encoding
+Judge(c, step, close) ==
+  IF InRange(c) THEN Good(c) /\ close
+  ELSE IF NearRange(c, step) THEN c.out = "conv" \/ (Good(c) /\ close /\ c.lo <= c.decv /\ c.decv <= c.hi)
   ELSE c.out = "conv"
-\* one-octet types scaled onto 0..255 (5.001: 0..100 %, 5.003: 0..360 degrees): value = lo + raw * span / 255; one step = max(resolution, span / 255)
+\* fixed point: the decoded value is the reference value of the payload and less than a step from the given one
+NumFixOk(c) == Judge(c, c.U, c.out = "ok" => (c.decv = FixValue(c) /\ Within(c.decv, c.v, c.eps, c.U)))
+\* one-octet types scaled onto 0..255 (5.001: 0..100 %, 5.003: 0..360 degrees): value = lo + raw * span / 255, decoded to whole resolution steps;
+\* one step = max(resolution, span / 255)
 NumScaledOk(c) ==
-  IF InRange(c) THEN /\ c.out = "ok" /\ c.plen = c.dlen /\ c.dec = "ok" /\ c.decok = 1
-                     /\ LET span == c.hi - c.lo  step255 == Max(255 * c.U, span) IN
-                        Within(c.raw * span, (c.v - c.lo) * 255, c.eps, step255)
-  ELSE c.out = "conv"
+  LET span == c.hi - c.lo  step255 == Max(255 * c.U, span) IN
+  Judge(c, Max(c.U, span \div 255 + 1),
+        c.out = "ok" => /\ 2 * Abs((c.decv - c.lo) * 255 - c.raw * span) <= 255 * c.U          \* decoded = reference value rounded to a whole step
+                        /\ Within(c.decv, c.v, c.eps, Max(c.U, span \div 255 + 1)))
 NumF16Ok(c) ==
-  IF InRange(c) THEN /\ c.out = "ok" /\ c.plen = c.dlen
-                     /\ Within(F16Value(c), c.v, c.eps, Pow2(F16MinExp(c.v, c.U)) * c.U)
-                     /\ c.dec = "ok" /\ c.decok = 1               \* ... and the type decodes what it encoded
-  ELSE c.out = "conv"
+  LET step == Pow2(F16MinExp(c.v, c.U)) * c.U IN
+  Judge(c, step, c.out = "ok" => (c.decv = F16Value(c) /\ Within(c.decv, c.v, c.eps, step)))
 \* 32 / 64-bit integers: v = anchor + off (+ 1/2 if half = 1); rawoff = (payload as an integer) - anchor - off
 BigIn(c) == \/ c.anchor = "in"
             \/ c.anchor = "min" /\ c.off >= 0
             \/ c.anchor = "max" /\ (c.off < 0 \/ (c.off = 0 /\ c.half = 0))
-NumBigOk(c) ==
-  IF BigIn(c) THEN /\ c.out = "ok" /\ c.plen = c.dlen /\ c.dec = "ok" /\ c.decok = 1
-                   /\ (IF c.half = 0 THEN c.rawoff = 0 ELSE c.rawoff \in {0, 1})
-  ELSE c.out = "conv"
-\* IEEE binary32 (DPT 14): the grid is supplied by the driver (decok = the decoded value is the nearest or next-nearest binary32 number)
-NumF32Ok(c) == IF c.zone = "in" THEN c.out = "ok" /\ c.plen = c.dlen /\ c.dec = "ok" /\ c.decok = 1
-               ELSE IF c.zone = "out" THEN c.out = "conv" ELSE c.out \in {"ok", "conv"}          \* NaN: either, but declared
+BigNear(c) == (c.anchor = "min" /\ c.off = -1 /\ c.half = 1) \/ (c.anchor = "max" /\ c.off = 0 /\ c.half = 1)
+BigGood(c) == Good(c) /\ (IF c.half = 0 THEN c.rawoff = 0 ELSE c.rawoff \in {0, 1})
+NumBigOk(c) == IF BigIn(c) THEN BigGood(c) ELSE IF BigNear(c) THEN c.out = "conv" \/ BigGood(c) ELSE c.out = "conv"
+\* IEEE binary32 (DPT 14): the grid is supplied by the driver (decok = the decoded value is less than one binary32 step from the given one);
+\* "unrep": inside the declared range (which is unbounded for DPT 14) but beyond the largest binary32 number
+NumF32Ok(c) == CASE c.zone = "in" -> Good(c) [] c.zone = "out" -> c.out = "conv" [] OTHER -> c.out = "conv" \/ Good(c)
 NumOk(c) == CASE c.fam = "fix" -> NumFixOk(c) [] c.fam = "scaled8" -> NumScaledOk(c) [] c.fam = "f16" -> NumF16Ok(c)
               [] c.fam = "big" -> NumBigOk(c) [] c.fam = "f32" -> NumF32Ok(c) [] OTHER -> FALSE
 \* ---------------------------------------------------------------- C10
